@@ -6,7 +6,8 @@ Property theorems only, about the executable model `IceModel.AgentCore` (one ICE
 `step : Agent → Ev → Agent × List Out`), for EVERY state reachable from a fresh agent by ANY list of events
 (local-candidate arrival, remote trickle incl. duplicates, inbound checks from unknown sources, timers, data,
 renomination, Restart, Close …).  The model is tied to the Go code by the differential correspondence of component
-`agent`.  No TCP candidates in the model, hence no "TCP-active" clause.
+`agent`.  TCP candidates (tcp4/tcp6, any tcptype) are in the model: the "never include TCP-active candidates" clause is
+part of `C06_remotes_dedup_filtered`.
 
 Two clauses of the property text are NOT invariants (of the model, and — replayed — of the code); they are proved in
 the strongest true form and refuted in full form on a concrete history:
@@ -21,7 +22,9 @@ non-canonical literal of its address (`::ffff:10.0.0.3` for `10.0.0.3`).  Every 
 signalled: an inbound check from the address of a listed remote candidate never creates a peer-reflexive duplicate
 (`C06_known_source_no_new_remote`), remote candidates are deduplicated as canonical candidates
 (`C06_remotes_dedup_canonical`), a new signalled candidate supersedes every peer-reflexive candidate with its
-transport address (`C06_prflx_superseded`).  The former counterexamples (notes/C06-forms.md) are kept as regression
+transport address (`C06_prflx_superseded_partial`: network type, canonical address and tcptype — a peer-reflexive
+candidate discovered from a TCP source carries no tcptype and is therefore never superseded by a signalled TCP
+candidate that has one: `C06_prflx_superseded_witness`, observation TCP-1).  The former counterexamples (notes/C06-forms.md) are kept as regression
 examples.
 -/
 namespace IceProps.C06
@@ -175,12 +178,36 @@ theorem C06_nominated_listed_partial (a : Agent) (h : Reachable a) (id : Nat) (h
 
 /-! ### (f) remote candidates: deduplicated and filtered; (g) caches -/
 
-/-- remote (and local) candidates are pairwise non-`Equal`, and no remote candidate — signalled or discovered
-peer-reflexive — has an address the remote IP filter rejects. -/
+/-- remote (and local) candidates are pairwise non-`Equal`, no remote candidate — signalled or discovered
+peer-reflexive — has an address the remote IP filter rejects, and no remote candidate has tcptype active (`tt = 1`):
+the public `AddRemoteCandidate` ignores such a candidate whatever its network type, and a peer-reflexive candidate
+discovered from an inbound check (also one arriving on a TCP local candidate) carries no tcptype. -/
 theorem C06_remotes_dedup_filtered (a : Agent) (h : Reachable a) :
     a.remotes.Pairwise (fun x y => x.equal y = false) ∧ a.locals.Pairwise (fun x y => x.equal y = false) ∧
-      ∀ r ∈ a.remotes, a.cfg.blockedIPs.contains (ipOf r.addr) = false :=
-  (C06_inv a h).read_remotes
+      (∀ r ∈ a.remotes, a.cfg.blockedIPs.contains (ipOf r.addr) = false) ∧
+      ∀ r ∈ a.remotes, r.tt ≠ 1 := by
+  obtain ⟨h1, h2, h3⟩ := (C06_inv a h).read_remotes
+  refine ⟨h1, h2, h3, fun r hr => ?_⟩
+  obtain ⟨a0, evs, h0, rfl⟩ := h
+  simpa using noActive_run (Inv.init h0) h0.noActive evs (core r) (mem_rcsOf hr)
+
+def tL : Cand := { uid := 0, ty := 1, net := 2, addr := tcpBase + 16, prio := 1671430143, tt := 2 }
+def tRa : Cand := { uid := 0, ty := 1, net := 2, addr := tcpBase + 32, prio := 1675624447, tt := 1 }
+def tRp : Cand := { uid := 0, ty := 1, net := 2, addr := tcpBase + 32, prio := 1671430143, tt := 2 }
+def tRs : Cand := { uid := 0, ty := 1, net := 2, addr := tcpBase + 32, prio := 1667235839, tt := 3 }
+def uRa : Cand := { uid := 0, ty := 1, net := 0, addr := 32, prio := 2130706431, tt := 1 }
+/-- TCP candidates: a signalled tcptype-active candidate is ignored (also on a UDP candidate), a passive one is
+stored but NOT paired with the local candidates present, a simultaneous-open one at the same address is another
+candidate (tcptype is part of the transport address) and is paired; a local candidate added later pairs with all
+remote candidates of its network type, the passive one included. -/
+example :
+    (run {} [.addLocal 0 tL, .addRemote 0 tRa, .addRemote 0 uRa]).remotes = [] ∧
+    (run {} [.addLocal 0 tL, .addRemote 0 tRp]).remotes.map (fun c => (c.uid, c.net, c.addr, c.tt)) = [(2, 2, tcpBase + 32, 2)] ∧
+    (run {} [.addLocal 0 tL, .addRemote 0 tRp]).checklist = [] ∧
+    (run {} [.addLocal 0 tL, .addRemote 0 tRp, .addRemote 0 tRs, .addRemote 0 tRp]).remotes.map (fun c => (c.uid, c.tt)) = [(2, 2), (3, 3)] ∧
+    (run {} [.addLocal 0 tL, .addRemote 0 tRp, .addRemote 0 tRs]).checklist.map (fun p => (p.id, p.l, p.r)) = [(1, 1, 3)] ∧
+    (run {} [.addRemote 0 tRp, .addRemote 0 tRs, .addLocal 0 tL]).checklist.map (fun p => (p.id, p.l, p.r)) = [(1, 3, 1), (2, 3, 2)] := by
+  decide
 
 /-- validated-source caches only reference current local and remote candidates. -/
 theorem C06_caches_current (a : Agent) (h : Reachable a) :
@@ -230,14 +257,59 @@ example :
     (run {} formDupEvs').remotes.map (fun c => (c.uid, c.ty, c.net, c.addr, c.form)) = [(2, 1, 0, 32, 1)] ∧
     (run {} formDupEvs').checklist.map (fun p => (p.id, p.l, p.r)) = [(1, 1, 2)] := by decide
 
-/-- **C06_prflx_superseded** — after a NEW signalled (not peer-reflexive) candidate `c` was accepted, no
-peer-reflexive candidate with its network type and canonical address is listed any more, whatever the literals. -/
-theorem C06_prflx_superseded (a : Agent) (h : Reachable a) (now : Nat) (c : Cand) (hc : a.closed = false)
+/-- FULL statement (false since TCP candidates are in the model): after a NEW signalled (not peer-reflexive) candidate
+`c` was accepted, no peer-reflexive candidate with its network type and canonical address is listed any more. -/
+def PrflxSupersededEverywhere : Prop :=
+  ∀ a, Reachable a → ∀ now c, a.closed = false → c.ty ≠ 3 →
+    a.cfg.blockedIPs.contains (ipOf c.addr) = false →
+    (a.remotes.filter (·.net == c.net)).find? (·.equal c) = none →
+    ∀ e ∈ (step a (.addRemote now c)).1.remotes, ¬ (e.ty = 3 ∧ e.net = c.net ∧ e.addr = c.addr)
+
+/-- **C06_prflx_superseded_partial** — after a NEW signalled (not peer-reflexive) candidate `c` was accepted, no
+peer-reflexive candidate with its TRANSPORT ADDRESS AS THE CODE DEFINES IT (`transportAddressEqual` = `Cand.taEqual`:
+network type, canonical address — whatever the literals —, tcptype, and on tcp4/tcp6 the kind of the resolved address:
+`*net.UDPAddr` for srflx/relay, `*net.TCPAddr` for host/prflx) is listed any more.  For UDP candidates this is the full
+statement (second part: no peer-reflexive candidate without a tcptype is left at the canonical address of a UDP
+candidate without one — a discovered peer-reflexive candidate never has one). -/
+theorem C06_prflx_superseded_partial (a : Agent) (h : Reachable a) (now : Nat) (c : Cand) (hc : a.closed = false)
     (hty : c.ty ≠ 3) (hb : a.cfg.blockedIPs.contains (ipOf c.addr) = false)
     (hf : (a.remotes.filter (·.net == c.net)).find? (·.equal c) = none) :
-    ∀ e ∈ (step a (.addRemote now c)).1.remotes, ¬ (e.ty = 3 ∧ e.net = c.net ∧ e.addr = c.addr) := by
-  intro e he
-  simpa using step_addRemote_prflx_gone (C06_inv a h) now c hc hb hf hty (core e) (mem_rcsOf he)
+    (∀ e ∈ (step a (.addRemote now c)).1.remotes, ¬ (e.ty = 3 ∧ e.taEqual c = true)) ∧
+    (isTCP c.net = false →
+      ∀ e ∈ (step a (.addRemote now c)).1.remotes, ¬ (e.ty = 3 ∧ e.net = c.net ∧ e.addr = c.addr ∧ e.tt = c.tt)) := by
+  have hact : ∀ x ∈ rcsOf a, x.tt ≠ 1 := by
+    obtain ⟨a0, evs, h0, rfl⟩ := h
+    exact noActive_run (Inv.init h0) h0.noActive evs
+  have h1 : ∀ e ∈ (step a (.addRemote now c)).1.remotes, ¬ (e.ty = 3 ∧ e.taEqual c = true) := by
+    intro e he
+    have := step_addRemote_prflx_gone (C06_inv a h) hact now c hc hb hf hty (core e) (mem_rcsOf he)
+    simpa [Cand.taEqual, Cand.udpResolved] using this
+  refine ⟨h1, fun hu e he ⟨e1, e2, e3, e4⟩ => h1 e he ⟨e1, ?_⟩⟩
+  simp [Cand.taEqual, e2, e3, e4, hu]
+
+/-- the excluded case (observation TCP-1, notes/C06-tcp.md; replayed on the real agent in corpus/C06/agent.ops): a
+check arrives on a TCP local candidate from an unknown source — the peer-reflexive candidate built for it is tcp4
+WITHOUT a tcptype; the signalled TCP candidate for that address carries one (here passive), so it is a different
+transport address for `removeRedundantPrflxFromSet`: the peer-reflexive candidate is never superseded, both stay
+listed (and `findRemoteCandidate` keeps resolving the address to the peer-reflexive one).  The same happens with a
+signalled srflx / relay TCP candidate WITHOUT tcptype: its resolved address is a `*net.UDPAddr`, the peer-reflexive
+candidate's a `*net.TCPAddr`, and `addrEqual` tells them apart. -/
+def tcpPrflxEvs : List Ev := [.addLocal 0 tL, .start 0 false "ru" "rp",
+  .inbound 10 (tcpBase + 16) (tcpBase + 32) { cls := 0, tid := 77, user := some ":ru", key := some "", role := some (true, 5) }]
+
+theorem C06_prflx_superseded_witness :
+    (run {} tcpPrflxEvs).remotes.map (fun c => (c.uid, c.ty, c.net, c.addr, c.tt, c.prio)) = [(2, 3, 2, tcpBase + 32, 0, 1394606079)] ∧
+    (step (run {} tcpPrflxEvs) (.addRemote 20 tRp)).1.remotes.map (fun c => (c.uid, c.ty, c.net, c.addr, c.tt))
+      = [(2, 3, 2, tcpBase + 32, 0), (3, 1, 2, tcpBase + 32, 2)] ∧
+    (step (run {} tcpPrflxEvs) (.addRemote 20 { tRp with ty := 2, tt := 0, rel := some 0 })).1.remotes.map
+      (fun c => (c.uid, c.ty, c.net, c.addr, c.tt)) = [(2, 3, 2, tcpBase + 32, 0), (3, 2, 2, tcpBase + 32, 0)] ∧
+    (step (run {} tcpPrflxEvs) (.addRemote 20 { tRp with tt := 0 })).1.remotes.map
+      (fun c => (c.uid, c.ty, c.net, c.addr, c.tt)) = [(3, 1, 2, tcpBase + 32, 0)] ∧
+    ¬ PrflxSupersededEverywhere := by
+  refine ⟨by decide, by decide, by decide, by decide, fun h => ?_⟩
+  have h1 := h _ ⟨{}, tcpPrflxEvs, ⟨rfl, rfl, rfl, rfl, rfl, rfl⟩, rfl⟩ 20 tRp (by decide) (by decide) (by decide) (by decide)
+  revert h1
+  decide
 
 /-- regression (FORMS-2, fixed by /repo 2a786b2): a peer-reflexive candidate is discovered at address 32, then the
 host candidate with that address is signalled as the IPv4-mapped literal (or canonically): the peer-reflexive
